@@ -1,14 +1,625 @@
 import Astria.Block.Model
+import Astria.Prelude.Sha256
+import Astria.Prelude.Hex
 import Driver.Common
-/- Area `block` (stub): replays the trace through the model. -/
+/-
+  Area `block` (C07, C17): replays the trace of /verif/harness/conductor/blobs.rs through
+  `Astria.Block` with a real SHA-256 and evaluates the properties' decidable specs on what the
+  implementation reported.
+
+  Line protocol (one token per raw protobuf value, `&` between its fields):
+    block reset <spec>                       => ok <block> | err:<kind>
+    block full|filtered|meta|blob <label> <raw> => ok same | ok <re-encoded> | err:<kind> | panic
+    block filter <ids>                       => <filtered>
+    block split                              => <meta> # <blob> # …
+    block celestia <label> cfg=<id>:<next firm> commits=<h:chain:hash|h:~,…> M=<blobs> R=<blobs>
+                                             => <hash>:<header>:<txs>+… | .
+    block wire <kind> <label> <hex>          => see `Astria.Block.Wire`
+-/
 namespace Driver.BlockArea
+open Astria Astria.Merkle Astria.Block
+
+def shaHs : Hashes where
+  H := { leaf := fun x => Sha256.hashList (0 :: x)
+         node := fun l r => Sha256.hashList (1 :: (l ++ r))
+         empty := Sha256.hashList [] }
+  sha := Sha256.hashList
+
+/-! ## Text codec (mirrors the Rust harness) -/
+
+def hx (b : Bytes) : String := Hex.encodeOrDash b
+def unhx (s : String) : Option Bytes := Hex.decode? s
+
+def blS (l : List Bytes) : String := if l.isEmpty then "." else ",".intercalate (l.map hx)
+def blP (s : String) : Option (List Bytes) := if s = "." then some [] else (s.splitOn ",").mapM unhx
+
+def proofS : Option RawProof → String
+  | none => "~"
+  | some p => s!"{hx p.auditPath}/{p.leafIndex}/{p.treeSize}"
+
+def proofP (s : String) : Option (Option RawProof) :=
+  if s = "~" then some none else
+  match s.splitOn "/" with
+  | [a, b, c] => do some (some ⟨← unhx a, ← b.toNat?, ← c.toNat?⟩)
+  | _ => none
+
+def hdrS : Option HeaderRaw → String
+  | none => "~"
+  | some h =>
+    let t := match h.time with | none => "~" | some (s, n) => s!"{s}_{n}"
+    s!"{hx h.chainId}:{h.height}:{t}:{hx h.txsRoot}:{hx h.dataHash}:{hx h.proposer}"
+
+def hdrP (s : String) : Option (Option HeaderRaw) :=
+  if s = "~" then some none else
+  match s.splitOn ":" with
+  | [c, h, t, r, d, p] => do
+    let time ← if t = "~" then some none else
+      match t.splitOn "_" with
+      | [a, b] => do some (some (← a.toInt?, ← b.toInt?))
+      | _ => none
+    some (some ⟨← unhx c, ← h.toNat?, time, ← unhx r, ← unhx d, ← unhx p⟩)
+  | _ => none
+
+def idS : Option Bytes → String
+  | none => "~"
+  | some b => hx b
+
+def idP (s : String) : Option (Option Bytes) := if s = "~" then some none else (unhx s).map some
+
+def rtS (r : RtRaw) : String := s!"{idS r.id};{blS r.txs};{proofS r.proof}"
+
+def rtP (s : String) : Option RtRaw :=
+  match s.splitOn ";" with
+  | [a, b, c] => do some ⟨← idP a, ← blP b, ← proofP c⟩
+  | _ => none
+
+def rtsS (l : List RtRaw) : String := if l.isEmpty then "." else "|".intercalate (l.map rtS)
+def rtsP (s : String) : Option (List RtRaw) := if s = "." then some [] else (s.splitOn "|").mapM rtP
+
+def checkS : EciCheck → String
+  | .ok => "ok" | .decode => "decode" | .invalid => "invalid"
+
+def checkP : String → Option EciCheck
+  | "ok" => some .ok | "decode" => some .decode | "invalid" => some .invalid | _ => none
+
+/-- The oracle about extended-commit-info bytes, as reported on the line. -/
+abbrev Oracle := List (Bytes × EciCheck)
+
+def Oracle.fn (o : Oracle) : Bytes → EciCheck := fun b =>
+  match o.find? (fun e => e.1 = b) with
+  | some e => e.2
+  | none => .decode
+
+def eciS (o : Oracle) : Option EciRaw → String
+  | none => "~"
+  | some e => s!"{hx e.info};{proofS e.proof};{checkS (o.fn e.info)}"
+
+def eciP (s : String) : Option (Option EciRaw × Oracle) :=
+  if s = "~" then some (none, []) else
+  match s.splitOn ";" with
+  | [a, b, c] => do
+    let info ← unhx a
+    some (some ⟨info, ← proofP b⟩, [(info, ← checkP c)])
+  | _ => none
+
+def fieldsOf (s : String) : List (String × String) :=
+  (s.splitOn "&").filterMap fun kv =>
+    match kv.splitOn "=" with
+    | [k, v] => some (k, v)
+    | _ => none
+
+def fget (f : List (String × String)) (k : String) : Option String := (f.find? (·.1 = k)).map (·.2)
+
+def idsS (l : List Bytes) : String := blS l
+def idsP (s : String) : Option (List Bytes) := blP s
+
+def blockS (o : Oracle) (b : BlockRaw) : String :=
+  s!"bh={hx b.blockHash}&hd={hdrS b.header}&rt={rtsS b.rollups}&tp={proofS b.txsProof}&ip={proofS b.idsProof}&uch={blS b.uch}&eci={eciS o b.eci}"
+
+def blockP (s : String) : Option (BlockRaw × Oracle) := do
+  let f := fieldsOf s
+  let (eci, o) ← eciP (← fget f "eci")
+  some (⟨← unhx (← fget f "bh"), ← hdrP (← fget f "hd"), ← rtsP (← fget f "rt"), ← proofP (← fget f "tp"),
+         ← proofP (← fget f "ip"), ← blP (← fget f "uch"), eci⟩, o)
+
+def filteredS (o : Oracle) (b : FilteredRaw) : String :=
+  s!"bh={hx b.blockHash}&hd={hdrS b.header}&rt={rtsS b.rollups}&tp={proofS b.txsProof}&all={idsS b.allIds}&ip={proofS b.idsProof}&uch={blS b.uch}&eci={eciS o b.eci}"
+
+def filteredP (s : String) : Option (FilteredRaw × Oracle) := do
+  let f := fieldsOf s
+  let (eci, o) ← eciP (← fget f "eci")
+  some (⟨← unhx (← fget f "bh"), ← hdrP (← fget f "hd"), ← rtsP (← fget f "rt"), ← proofP (← fget f "tp"),
+         ← idsP (← fget f "all"), ← proofP (← fget f "ip"), ← blP (← fget f "uch"), eci⟩, o)
+
+def metaS (o : Oracle) (b : MetaRaw) : String :=
+  s!"bh={hx b.blockHash}&hd={hdrS b.header}&ids={idsS b.ids}&tp={proofS b.txsProof}&ip={proofS b.idsProof}&uch={blS b.uch}&eci={eciS o b.eci}"
+
+def metaP (s : String) : Option (MetaRaw × Oracle) := do
+  let f := fieldsOf s
+  let (eci, o) ← eciP (← fget f "eci")
+  some (⟨← unhx (← fget f "bh"), ← hdrP (← fget f "hd"), ← idsP (← fget f "ids"), ← proofP (← fget f "tp"),
+         ← proofP (← fget f "ip"), ← blP (← fget f "uch"), eci⟩, o)
+
+def blobS (b : BlobRaw) : String :=
+  s!"bh={hx b.blockHash}&id={idS b.id}&tx={blS b.txs}&pf={proofS b.proof}"
+
+def blobP (s : String) : Option BlobRaw := do
+  let f := fieldsOf s
+  some ⟨← unhx (← fget f "bh"), ← idP (← fget f "id"), ← blP (← fget f "tx"), ← proofP (← fget f "pf")⟩
+
+def specP (s : String) : Option BuildInput := do
+  let f := fieldsOf s
+  let (secs, nanos) ← match (← fget f "t").splitOn "_" with
+    | [a, b] => do some (← a.toInt?, ← b.toNat?)
+    | _ => none
+  let subsS ← fget f "subs"
+  let subs ← if subsS = "." then some [] else
+    (subsS.splitOn ",").mapM fun e =>
+      match e.splitOn ":" with
+      | [a, b] => do some (← unhx a, ← unhx b)
+      | _ => none
+  let depsS ← fget f "deps"
+  let deps ← if depsS = "." then some [] else
+    (depsS.splitOn ",").mapM fun e =>
+      match e.splitOn ":" with
+      | [a, b] => do
+        let ds ← if b = "." then some [] else (b.splitOn "/").mapM unhx
+        some (← unhx a, ds)
+      | _ => none
+  let eciS ← fget f "eci"
+  let eci ← if eciS = "~" then some none else (unhx eciS).map some
+  some { blockHash := ← unhx (← fget f "bh"), chainId := ← unhx (← fget f "ch"), height := ← (← fget f "h").toNat?,
+         secs := secs, nanos := nanos, proposer := ← unhx (← fget f "pr"), subs := subs, deps := deps,
+         txsRoot := ← unhx (← fget f "r1"), idsRoot := ← unhx (← fget f "r2"), uch := ← blP (← fget f "uch"),
+         eci := eci, userTxs := ← blP (← fget f "utx") }
+
+/-! ## Error names per receiver -/
+
+def pkName : Flat.ProofError → String
+  | .zeroTreeSize => "ZeroTreeSize"
+  | .leafIndexOutsideTree => "LeafIndexOutsideTree"
+  | .auditPathNotMultipleOf32 => "AuditPathNotMultipleOf32"
+  | .auditPathTooLong => "AuditPathTooLong"
+
+def hkName : HeaderErr → String
+  | .invalidChainId => "InvalidChainId" | .invalidHeight => "InvalidHeight"
+  | .timeNotSet => "FieldNotSet:time" | .time => "Time"
+  | .rootLength => "IncorrectRollupTransactionsRootLength" | .proposer => "ProposerAddress"
+
+def rkName : RtErr → String
+  | .idNotSet => "FieldNotSet:rollup_id" | .idLength => "RollupId"
+  | .proofNotSet => "FieldNotSet:proof" | .proof e => s!"ProofInvalid/{pkName e}"
+
+def ekName : EciErr → String
+  | .proofNotSet => "ProofNotSet" | .proof e => pkName e | .notInBlock => "NotInSequencerBlock"
+  | .decode => "Decode" | .invalid => "InvalidExtendedCommitInfo"
+
+inductive Recv where
+  | rFull | rFiltered | rMeta | rBlob
+
+def errName (r : Recv) : Err → String
+  | .blockHash => match r with
+    | Recv.rFull | Recv.rFiltered => "InvalidBlockHash" | Recv.rMeta => "BlockHash" | Recv.rBlob => "SequencerBlockHash"
+  | .fieldNotSet f => s!"FieldNotSet:{f}"
+  | .txsProof e => match r with
+    | Recv.rMeta => s!"RollupTransactionsProof/{pkName e}" | _ => s!"TransactionProofInvalid/{pkName e}"
+  | .idsProof e => match r with
+    | Recv.rMeta => s!"RollupIdsProof/{pkName e}" | _ => s!"IdProofInvalid/{pkName e}"
+  | .header e => match r with
+    | Recv.rFiltered => s!"InvalidHeader/{hkName e}" | _ => s!"Header/{hkName e}"
+  | .rollupTxs e => s!"ParseRollupTransactions/{rkName e}"
+  | .rollupId => match r with
+    | Recv.rFiltered => "InvalidRollupId" | Recv.rMeta => "RollupIds" | _ => "RollupId"
+  | .invalidTxsRoot => "InvalidRollupTransactionsRoot"
+  | .txsNotInBlock => match r with
+    | Recv.rMeta => "RollupTransactionsNotInCometBftBlock" | _ => "RollupTransactionsNotInSequencerBlock"
+  | .txsForIdNotInBlock _ => "RollupTransactionForIdNotInSequencerBlock"
+  | .idsNotInBlock => match r with
+    | Recv.rMeta => "RollupIdsNotInCometBftBlock" | _ => "InvalidRollupIdsProof"
+  | .uch => "UpgradeChangeHashes"
+  | .eci e => s!"ExtendedCommitInfo/{ekName e}"
+  | .proof e => s!"Proof/{pkName e}"
+
+def okOracle (eci : Option Eci) : Oracle := match eci with | some e => [(e.info, .ok)] | none => []
+
+/-! ## Model results -/
+
+def resFull (c : Ctx) (o : Oracle) (r : BlockRaw) : String :=
+  match fullFromRaw c r with
+  | .panic => "panic"
+  | .value (.error e) => s!"err:{errName Recv.rFull e}"
+  | .value (.ok b) => if b.toRaw = r then "ok same" else s!"ok {blockS (okOracle b.eci ++ o) b.toRaw}"
+
+def resFiltered (c : Ctx) (o : Oracle) (r : FilteredRaw) : String :=
+  match filteredFromRaw c r with
+  | .panic => "panic"
+  | .value (.error e) => s!"err:{errName Recv.rFiltered e}"
+  | .value (.ok b) => if b.toRaw = r then "ok same" else s!"ok {filteredS (okOracle b.eci ++ o) b.toRaw}"
+
+def resMeta (c : Ctx) (o : Oracle) (r : MetaRaw) : String :=
+  match metaFromRaw c r with
+  | .panic => "panic"
+  | .value (.error e) => s!"err:{errName Recv.rMeta e}"
+  | .value (.ok b) => if b.toRaw = r then "ok same" else s!"ok {metaS (okOracle b.eci ++ o) b.toRaw}"
+
+def resBlob (r : BlobRaw) : String :=
+  match blobFromRaw r with
+  | .panic => "panic"
+  | .value (.error e) => s!"err:{errName Recv.rBlob e}"
+  | .value (.ok b) => if b.toRaw = r then "ok same" else s!"ok {blobS b.toRaw}"
+
+def bytesCmp (a b : Bytes) : Bool := bytesLt a b || a == b
+
+def insertRec (r : Reconstructed) : List Reconstructed → List Reconstructed
+  | [] => [r]
+  | x :: xs =>
+    if r.header.height < x.header.height ∨ (r.header.height = x.header.height ∧ bytesCmp r.blockHash x.blockHash)
+    then r :: x :: xs else x :: insertRec r xs
+
+def recS (l : List Reconstructed) : String :=
+  if l.isEmpty then "." else
+  let sorted := l.foldr insertRec []
+  "+".intercalate (sorted.map fun r =>
+    s!"{hx r.blockHash}:{(hdrS (some r.header.toRaw)).replace ":" "^"}:{blS r.txs}")
+
+/-- `<blob>*<blob>…`, blob = `!` | `[^]<entry>+…` | `[^]0`; a wrong namespace drops the blob. -/
+def blobsP {ρ : Type} (f : String → Option ρ) (s : String) : Option (List (Option (List ρ))) :=
+  if s = "." then some [] else
+  (s.splitOn "*").mapM fun b =>
+    let (wrong, body) := if b.startsWith "^" then (true, (b.drop 1).toString) else (false, b)
+    if body = "!" then some none
+    else if body = "0" then some (if wrong then none else some [])
+    else do
+      let es ← (body.splitOn "+").mapM f
+      some (if wrong then none else some es)
+
+def commitsP (s : String) : Option (List (Nat × Option Commit)) :=
+  if s = "." then some [] else
+  (s.splitOn ",").mapM fun c =>
+    match c.splitOn ":" with
+    | [h, "~"] => do some (← h.toNat?, none)
+    | [h, ch, bh] => do some (← h.toNat?, some ⟨← unhx ch, ← unhx bh⟩)
+    | _ => none
+
+/-! ## Specs evaluated on the implementation's results -/
+
+/-- What the property says a rollup's data is: its submissions in block order, then its deposits. -/
+def expectedData (inp : BuildInput) (id : Bytes) : List Bytes :=
+  ((inp.subs.filter (·.1 = id)).map fun s => encSequenced s.2) ++
+    ((inp.deps.filter (·.1 = id)).flatMap (·.2))
+
+def expectedIdSet (inp : BuildInput) : List Bytes := (inp.subs.map (·.1) ++ inp.deps.map (·.1)).eraseDups
+
+def strictlySorted : List Bytes → Bool
+  | a :: b :: rest => bytesLt a b && strictlySorted (b :: rest)
+  | _ => true
+
+/-- structural decoding only (every proof check answered "true") -/
+def structCtx (o : Oracle) : Ctx := ⟨shaHs, fun _ _ _ => .value true, o.fn⟩
+
+/-- the crate's verification semantics (C08 ties `Flat` to the code) -/
+def pv (π : Proof) (leaf root : Bytes) : Bool := flatV shaHs π (shaHs.H.leaf leaf) root == .value true
+
+def rtProofOk (root : Bytes) (r : Rt) : Bool := pv r.proof (rollupLeaf shaHs r.id r.txs) root
+
+def eciProofOk (dataHash : Bytes) : Option Eci → Bool
+  | none => true
+  | some e => pv e.proof (shaHs.sha e.info) dataHash
+
+/-- every proof carried by a full block verifies against the commitments in its header -/
+def fullProofsOk (b : Block) : List String :=
+  (if pv b.txsProof (shaHs.sha b.header.txsRoot) b.header.dataHash then [] else ["rollup_transactions_proof"]) ++
+  (if pv b.idsProof (shaHs.sha (treeRoot shaHs b.ids)) b.header.dataHash then [] else ["rollup_ids_proof"]) ++
+  (if eciProofOk b.header.dataHash b.eci then [] else ["extended_commit_info proof"]) ++
+  (b.rollups.filterMap fun r => if rtProofOk b.header.txsRoot r then none else some s!"proof of rollup {hx r.id}")
+
+structure Sess where
+  inp : Option BuildInput := none
+  model : Option Block := none          -- the model's block
+  impl : Option Block := none           -- the implementation's block (decoded from its dump)
+  implRaw : Option BlockRaw := none
+  honestRaws : List String := []        -- raw tokens the implementation itself produced (filter/split)
+
+/-- monitors for a `reset` line on which the implementation built a block -/
+def monitorBuilt (inp : BuildInput) (b : Block) : List (String × String) :=
+  let ids := b.ids
+  (if strictlySorted ids then [] else [("built_ids_sorted_set", "rollup ids not strictly ascending")]) ++
+  (if ids.all (expectedIdSet inp).contains ∧ (expectedIdSet inp).all ids.contains then []
+   else [("built_ids_sorted_set", "rollup ids are not the set of rollups with data")]) ++
+  (b.rollups.filterMap fun r =>
+    if r.txs = expectedData inp r.id then none
+    else some ("built_data_exact", s!"data of rollup {hx r.id} is not submissions in block order ++ deposits")) ++
+  ((fullProofsOk b).map fun m => ("built_proofs_verify", s!"{m} of the built block does not verify"))
+
+/-- the reference content a receiver may accept for the session's data hash -/
+def contentMismatch (built : Block) (content : List (Bytes × List Bytes)) (subsetOnly : Bool) : Option String :=
+  if subsetOnly then
+    match content.find? (fun e => !built.content.contains e) with
+    | some e => some s!"accepted data for rollup {hx e.1} differs from the built block"
+    | none => none
+  else if content = built.content then none
+  else some "accepted rollup data differs from the built block"
+
+/-- Report a monitor failure; at most 3 lines per (monitor, label class) are printed (the
+    rest is only counted) so that a recorded open finding cannot push another failure out of
+    the driver's capped output. -/
+def mon (r : Driver.Report) (name label : String) (n : Nat) (line msg : String) : Driver.Report :=
+  let cls := (label.splitOn ":").headD label
+  let key := s!"monfail_{name}_{cls}"
+  let seen := match r.stats.find? (·.1 = key) with | some e => e.2 | none => 0
+  let r := r.bump key
+  if seen < 3 then r.addMonitor name n line msg else { r with monitorFail := r.monitorFail + 1 }
 
 def run (lines : Array String) : Driver.Report := Id.run do
   let mut r : Driver.Report := {}
   let mut n := 0
+  let mut s : Sess := {}
   for line in lines do
     n := n + 1
-    r := r.addDisagree n line "bad-area"
+    let (op, impl) := Driver.splitLine line
+    match Driver.words op with
+    | ["block", "reset", spec] =>
+      let label := "reset"
+      r := r.bump "op_reset"
+      match specP spec with
+      | none => r := r.addDisagree n line "bad-op"
+      | some inp =>
+        let res := tryBuild shaHs inp
+        let m := match res with
+          | .error .idsRootMismatch => "err:RollupIdsRootDoesNotMatchReconstructed"
+          | .error .txsRootMismatch => "err:RollupTransactionsRootDoesNotMatchReconstructed"
+          | .ok b => s!"ok {blockS (okOracle b.eci) b.toRaw}"
+        r := r.check n line impl m
+        s := { inp := some inp, model := res.toOption }
+        if impl = "panic" then r := mon r "no_panic" label n line "building a block panicked"
+        if impl.startsWith "ok " then
+          r := r.bump s!"built_rollups_{(match res with | .ok b => b.rollups.length | _ => 0)}"
+          match blockP (impl.drop 3).toString with
+          | none => r := mon r "dump_parse" label n line "cannot parse the built block"
+          | some (raw, o) =>
+            match fullFromRaw (structCtx o) raw with
+            | .value (.ok b) =>
+              s := { s with impl := some b, implRaw := some raw }
+              for (name, msg) in monitorBuilt inp b do r := mon r name label n line msg
+              -- an honest proposer's commitments are the ones the builder recomputes
+              let (c1, c2) := commitments shaHs inp.subs inp.deps
+              if c1 ≠ b.header.txsRoot ∨ c2 ≠ inp.idsRoot then
+                r := mon r "built_commitments" label n line "built block's roots are not the commitments of its data"
+            | _ => r := mon r "dump_parse" label n line "the built block does not decode structurally"
+        else
+          r := r.bump s!"res_{impl}"
+    | ["block", "full", label, rawS] =>
+      r := r.bump "op_full"
+      match blockP rawS with
+      | none => r := r.addDisagree n line "bad-op"
+      | some (raw, o) =>
+        r := r.check n line impl (resFull (flatCtx shaHs o.fn) o raw)
+        if resFull (flatCtx shaHs o.fn) o raw ≠ resFull (rfcCtx shaHs o.fn) o raw then r := r.bump "flat_rfc_differ"
+        if impl = "panic" then r := mon r "no_panic" label n line "SequencerBlock::try_from_raw panicked"
+        if some raw = s.implRaw ∧ !impl.startsWith "ok" then
+          r := mon r "honest_accepted" label n line "the built block was rejected"
+        if impl.startsWith "ok" then
+          r := r.bump (if label = "honest" then "full_ok_honest" else "full_ok_tampered")
+          let acc := if impl = "ok same" then some (raw, o) else blockP (impl.drop 3).toString
+          match acc with
+          | none => r := mon r "dump_parse" label n line "cannot parse the accepted block"
+          | some (araw, ao) =>
+            match fullFromRaw (structCtx ao) araw, s.impl with
+            | .value (.ok b), some built =>
+              if b.header.dataHash = built.header.dataHash then
+                match contentMismatch built b.content false with
+                | some msg => r := mon r "accepted_equals_built" label n line msg
+                | none => pure ()
+                if b.header.txsRoot ≠ built.header.txsRoot then
+                  r := mon r "accepted_equals_built" label n line "accepted another rollup transactions root for the same data hash"
+              for m in fullProofsOk b do
+                r := mon r "accepted_proofs_verify" label n line s!"accepted, but {m} does not verify"
+            | .value (.ok _), none => pure ()
+            | _, _ => r := mon r "reencode" label n line "the accepted block does not decode again"
+        else r := r.bump s!"res_full_{impl}"
+    | ["block", "filtered", label, rawS] =>
+      r := r.bump "op_filtered"
+      match filteredP rawS with
+      | none => r := r.addDisagree n line "bad-op"
+      | some (raw, o) =>
+        r := r.check n line impl (resFiltered (flatCtx shaHs o.fn) o raw)
+        if resFiltered (flatCtx shaHs o.fn) o raw ≠ resFiltered (rfcCtx shaHs o.fn) o raw then r := r.bump "flat_rfc_differ"
+        if impl = "panic" then r := mon r "no_panic" label n line "FilteredSequencerBlock::try_from_raw panicked"
+        if s.honestRaws.contains rawS ∧ !impl.startsWith "ok" then
+          r := mon r "honest_accepted" label n line "a filtered block produced by to_filtered_block was rejected"
+        if impl.startsWith "ok" then
+          r := r.bump (if label = "honest" then "filtered_ok_honest" else "filtered_ok_tampered")
+          let acc := if impl = "ok same" then some (raw, o) else filteredP (impl.drop 3).toString
+          match acc with
+          | none => r := mon r "dump_parse" label n line "cannot parse the accepted block"
+          | some (araw, ao) =>
+            match filteredFromRaw (structCtx ao) araw, s.impl with
+            | .value (.ok f), some built =>
+              if f.header.dataHash = built.header.dataHash then
+                match contentMismatch built f.content true with
+                | some msg => r := mon r "accepted_equals_built" label n line msg
+                | none => pure ()
+                if f.allIds ≠ built.ids then
+                  r := mon r "accepted_equals_built" label n line "accepted a different list of all rollup ids"
+                if f.header.txsRoot ≠ built.header.txsRoot then
+                  r := mon r "accepted_equals_built" label n line "accepted another rollup transactions root for the same data hash"
+              if !pv f.txsProof (shaHs.sha f.header.txsRoot) f.header.dataHash then
+                r := mon r "accepted_proofs_verify" label n line "accepted, but rollup_transactions_proof does not verify"
+              if !pv f.idsProof (shaHs.sha (treeRoot shaHs f.allIds)) f.header.dataHash then
+                r := mon r "accepted_proofs_verify" label n line "accepted, but rollup_ids_proof does not verify"
+              if !eciProofOk f.header.dataHash f.eci then
+                r := mon r "accepted_proofs_verify" label n line "accepted, but the extended commit info proof does not verify"
+              for rt in f.rollups do
+                if !rtProofOk f.header.txsRoot rt then
+                  r := mon r "accepted_proofs_verify" label n line s!"accepted, but the proof of rollup {hx rt.id} does not verify"
+            | .value (.ok _), none => pure ()
+            | _, _ => r := mon r "reencode" label n line "the accepted block does not decode again"
+        else r := r.bump s!"res_filtered_{impl}"
+    | ["block", "meta", label, rawS] =>
+      r := r.bump "op_meta"
+      match metaP rawS with
+      | none => r := r.addDisagree n line "bad-op"
+      | some (raw, o) =>
+        r := r.check n line impl (resMeta (flatCtx shaHs o.fn) o raw)
+        if resMeta (flatCtx shaHs o.fn) o raw ≠ resMeta (rfcCtx shaHs o.fn) o raw then r := r.bump "flat_rfc_differ"
+        if impl = "panic" then r := mon r "no_panic" label n line "SubmittedMetadata::try_from_raw panicked"
+        if s.honestRaws.contains rawS ∧ !impl.startsWith "ok" then
+          r := mon r "honest_accepted" label n line "the metadata produced by split_for_celestia was rejected"
+        if impl.startsWith "ok" then
+          r := r.bump (if label = "honest" then "meta_ok_honest" else "meta_ok_tampered")
+          let acc := if impl = "ok same" then some (raw, o) else metaP (impl.drop 3).toString
+          match acc with
+          | none => r := mon r "dump_parse" label n line "cannot parse the accepted metadata"
+          | some (araw, ao) =>
+            match metaFromRaw (structCtx ao) araw, s.impl with
+            | .value (.ok m), some built =>
+              if m.header.dataHash = built.header.dataHash then
+                if m.ids ≠ built.ids then
+                  r := mon r "accepted_equals_built" label n line "accepted a different list of rollup ids"
+                if m.header.txsRoot ≠ built.header.txsRoot then
+                  r := mon r "accepted_equals_built" label n line "accepted another rollup transactions root for the same data hash"
+              if !pv m.txsProof (shaHs.sha m.header.txsRoot) m.header.dataHash then
+                r := mon r "accepted_proofs_verify" label n line "accepted, but rollup_transactions_proof does not verify"
+              if !pv m.idsProof (shaHs.sha (treeRoot shaHs m.ids)) m.header.dataHash then
+                r := mon r "accepted_proofs_verify" label n line "accepted, but rollup_ids_proof does not verify"
+              if !eciProofOk m.header.dataHash m.eci then
+                r := mon r "accepted_proofs_verify" label n line "accepted, but the extended commit info proof does not verify"
+            | .value (.ok _), none => pure ()
+            | _, _ => r := mon r "reencode" label n line "the accepted metadata does not decode again"
+        else r := r.bump s!"res_meta_{impl}"
+    | ["block", "blob", label, rawS] =>
+      r := r.bump "op_blob"
+      match blobP rawS with
+      | none => r := r.addDisagree n line "bad-op"
+      | some raw =>
+        r := r.check n line impl (resBlob raw)
+        if impl = "panic" then r := mon r "no_panic" label n line "SubmittedRollupData::try_from_raw panicked"
+        if s.honestRaws.contains rawS ∧ !impl.startsWith "ok" then
+          r := mon r "honest_accepted" label n line "a rollup blob produced by split_for_celestia was rejected"
+        if impl.startsWith "ok" then r := r.bump "blob_ok" else r := r.bump s!"res_blob_{impl}"
+    | ["block", "filter", idsS'] =>
+      let label := "filter"
+      r := r.bump "op_filter"
+      match idsP idsS', s.model with
+      | some ids, some b =>
+        let f := toFiltered b ids
+        r := r.check n line impl (filteredS (okOracle f.eci) f.toRaw)
+        r := r.bump s!"filter_request_{ids.length}_returned_{f.rollups.length}"
+        s := { s with honestRaws := impl :: s.honestRaws }
+        -- spec on the implementation's answer
+        match filteredP impl, s.impl with
+        | some (fraw, fo), some built =>
+          match filteredFromRaw (structCtx fo) fraw with
+          | .value (.ok fi) =>
+            let want := (ids.filter built.ids.contains).eraseDups
+            if fi.rollups.map (·.id) ≠ want then
+              r := mon r "filter_exact" label n line "returned rollups are not requested ∩ present (in request order)"
+            if fi.rollups.any (fun rt => !built.rollups.contains rt) then
+              r := mon r "filter_exact" label n line "a returned rollup entry differs from the stored one"
+            if fi.allIds ≠ built.ids ∨ fi.header ≠ built.header ∨ fi.txsProof ≠ built.txsProof ∨ fi.idsProof ≠ built.idsProof
+                ∨ fi.blockHash ≠ built.blockHash then
+              r := mon r "filter_exact" label n line "ids / header / proofs of the filtered block differ from the block"
+          | _ => r := mon r "dump_parse" label n line "filtered block does not decode structurally"
+        | _, _ => r := mon r "dump_parse" label n line "cannot parse the filtered block"
+      | _, _ => r := r.addDisagree n line "bad-op"
+    | ["block", "split"] =>
+      let label := "split"
+      r := r.bump "op_split"
+      match s.model with
+      | none => r := r.addDisagree n line "no-block"
+      | some b =>
+        let (m, bs) := split b
+        let out := " # ".intercalate (metaS (okOracle m.eci) m.toRaw :: bs.map fun x => blobS x.toRaw)
+        r := r.check n line impl out
+        s := { s with honestRaws := (impl.splitOn " # ") ++ s.honestRaws }
+        match impl.splitOn " # ", s.impl with
+        | mS :: bS, some built =>
+          match metaP mS with
+          | some (mraw, mo) =>
+            match metaFromRaw (structCtx mo) mraw with
+            | .value (.ok mi) =>
+              if mi.ids ≠ built.ids ∨ mi.header ≠ built.header ∨ mi.blockHash ≠ built.blockHash
+                  ∨ mi.txsProof ≠ built.txsProof ∨ mi.idsProof ≠ built.idsProof then
+                r := mon r "split_exact" label n line "metadata differs from the block"
+            | _ => r := mon r "dump_parse" label n line "metadata does not decode structurally"
+          | none => r := mon r "dump_parse" label n line "cannot parse metadata"
+          let blobs := bS.filterMap fun x => match blobP x with
+            | some br => match blobFromRaw br with | .value (.ok bb) => some bb | _ => none
+            | none => none
+          if blobs.map (fun x => (x.blockHash, x.id, x.txs, x.proof)) ≠
+              built.rollups.map (fun rt => (built.blockHash, rt.id, rt.txs, rt.proof)) then
+            r := mon r "split_exact" label n line "rollup blobs are not the block's rollup entries in order"
+        | _, _ => pure ()
+    | "block" :: "celestia" :: label :: rest =>
+      r := r.bump "op_celestia"
+      let f := rest.filterMap fun kv => match kv.splitOn "=" with
+        | k :: v :: more => some (k, "=".intercalate (v :: more))
+        | _ => none
+      let parsed : Option (ConductorCfg × List (Nat × Option Commit) × List (Option (List (MetaRaw × Oracle))) × List (Option (List BlobRaw))) := do
+        let cfgS ← fget f "cfg"
+        let (rid, nf) ← match cfgS.splitOn ":" with | [a, b] => do some (← unhx a, ← b.toNat?) | _ => none
+        let commits ← commitsP (← fget f "commits")
+        let ms ← blobsP metaP (← fget f "M")
+        let bs ← blobsP blobP (← fget f "R")
+        some (⟨rid, nf, fun h => match commits.find? (·.1 = h) with | some c => c.2 | none => none⟩, commits, ms, bs)
+      match parsed with
+      | none => r := r.addDisagree n line "bad-op"
+      | some (cfg, _commits, ms, bs) =>
+        let o : Oracle := ms.flatMap fun b => match b with | some l => l.flatMap (·.2) | none => []
+        let msRaw := ms.map fun b => b.map fun l => l.map (·.1)
+        let c := flatCtx shaHs o.fn
+        let res := match conductor c false cfg msRaw bs with
+          | .panic => "panic"
+          | .value l => recS l
+        r := r.check n line impl res
+        if impl = "panic" then r := mon r "no_panic" label n line "the conductor pipeline panicked"
+        r := r.bump (if impl = "." then "celestia_none" else "celestia_some")
+        -- spec: every reconstructed block carries data only from a blob of the conductor's rollup
+        -- that is bound to the root of the metadata with that block hash
+        let metas := match convertAll (metaFromRaw c) msRaw with | .value l => l | .panic => []
+        let blobs := match convertAll blobFromRaw bs with | .value l => l | .panic => []
+        if impl ≠ "." ∧ impl ≠ "panic" then
+          for blk in impl.splitOn "+" do
+            match blk.splitOn ":" with
+            | [hS, _hd, txS] =>
+              match unhx hS, blP txS with
+              | some h, some txs =>
+                let bound := blobs.any fun b =>
+                  b.blockHash = h ∧ b.txs = txs ∧ b.id = cfg.rollupId ∧
+                    metas.any fun m => m.blockHash = h ∧ pv b.proof (rollupLeaf shaHs b.id b.txs) m.header.txsRoot
+                let emptyOk := txs.isEmpty ∧ metas.any fun m => m.blockHash = h ∧ !m.ids.contains cfg.rollupId
+                -- whoever is in the sequencer's commit table
+                let committed := match metas.find? (fun m => m.blockHash = h) with
+                  | some m => (match cfg.commits m.header.height with
+                    | some cm => cm.blockHash = h ∧ cm.chainId = m.header.chainId ∧ m.header.height ≥ cfg.nextFirmHeight
+                    | none => false)
+                  | none => false
+                if !committed then
+                  r := mon r "receiver_block_bound" label n line s!"reconstructed block {hS} is not the committed block of its height"
+                -- data of ANOTHER rollup, validly bound to this block (DESIGN §7 F10)
+                let foreign := blobs.find? fun b =>
+                  b.blockHash = h ∧ b.txs = txs ∧ b.id ≠ cfg.rollupId ∧
+                    metas.any fun m => m.blockHash = h ∧ pv b.proof (rollupLeaf shaHs b.id b.txs) m.header.txsRoot
+                let attributed := bound ∨ emptyOk
+                if !attributed then
+                  match foreign with
+                  | some fb =>
+                    r := mon r "receiver_attribution" label n line
+                      s!"reconstructed block {hS} carries the verified blob of another rollup ({hx fb.id}), not of the conductor's rollup"
+                  | none =>
+                    r := mon r "receiver_bound" label n line
+                      s!"reconstructed block {hS} carries data that is no verified blob of this block"
+                -- against what was built in this session
+                match s.impl, s.inp with
+                | some built, some inp =>
+                  if attributed && built.blockHash == h && (metas.any fun m => m.blockHash == h && m.header == built.header) then
+                    if txs ≠ expectedData inp cfg.rollupId then
+                      r := mon r "receiver_data_exact" label n line
+                        s!"reconstructed block {hS} does not carry exactly the conductor rollup's data of the built block"
+                | _, _ => pure ()
+              | _, _ => r := mon r "dump_parse" label n line "cannot parse reconstructed block"
+            | _ => r := mon r "dump_parse" label n line "cannot parse reconstructed block"
+    | _ => r := r.addDisagree n line "bad-area"
   return r
 
 end Driver.BlockArea
